@@ -63,7 +63,7 @@ type c09Op struct {
 func c09Stress(w *core.Worker, i int) {
 	r := w.Rng(i, "stress")
 	d := core.FreshDir(w.Work, "stress")
-	core.WriteFiles(d, map[string]string{"counter.csv": c09Counter, "log.csv": "c,s\n"})
+	core.WriteFiles(d, map[string]string{"counter.csv": c09Counter, "log.csv": "c,s\n", "aux.csv": "id\n1\n"})
 	trace := filepath.Join(w.Work, "stress.trace")
 	_ = os.Remove(trace)
 	profiles := []string{"", "lock.checked=2,rlock.lock_created=1", "lock.created=1,commit.removed=2,rlock.checked=1", "hold.x.begin=3,rlock.rlock_created=2,cf.closed=1"}
@@ -90,6 +90,10 @@ func c09Stress(w *core.Worker, i int) {
 					// plain read first, then the change: the table must be read again under the exclusive lock
 					op.kind = "incsel"
 					prog = fmt.Sprintf("SELECT n FROM counter; UPDATE counter SET n = n + 1, m = m + 1; INSERT INTO log VALUES (%d, %d); SELECT n FROM counter;", c, s)
+				case k == 4 && s%2 == 0:
+					// read under FOR UPDATE through a join, then write what was read: FOR UPDATE must hold every table of the query
+					op.kind = "incfuvar"
+					prog = fmt.Sprintf("VAR @v; SELECT @v := counter.n FROM aux JOIN counter ON aux.id = counter.id FOR UPDATE; UPDATE counter SET n = @v + 1, m = @v + 1; INSERT INTO log VALUES (%d, %d); SELECT n FROM counter;", c, s)
 				case k < 5:
 					op.kind = "incfu"
 					prog = fmt.Sprintf("SELECT n FROM counter FOR UPDATE; UPDATE counter SET n = n + 1, m = m + 1; INSERT INTO log VALUES (%d, %d); SELECT n FROM counter;", c, s)
@@ -131,7 +135,7 @@ func c09Stress(w *core.Worker, i int) {
 		if op.code == 8 {
 			timeouts++
 		}
-		if op.code == 0 && (op.kind == "inc" || op.kind == "incfu" || op.kind == "incsel" || op.kind == "inc-short") {
+		if op.code == 0 && (op.kind == "inc" || op.kind == "incfu" || op.kind == "incfuvar" || op.kind == "incsel" || op.kind == "inc-short") {
 			committed++
 			wantLog[fmt.Sprintf("%d,%d", op.client, op.seq)] = true
 		}
@@ -211,7 +215,7 @@ func c09Stress(w *core.Worker, i int) {
 			continue
 		}
 		switch op.kind {
-		case "inc", "incfu", "incsel", "inc-short":
+		case "inc", "incfu", "incfuvar", "incsel", "inc-short":
 			ls := strings.Split(op.out, "\n")
 			v, err := strconv.Atoi(strings.TrimSpace(ls[len(ls)-1]))
 			if err != nil {
